@@ -2898,11 +2898,8 @@ fn case_c15(seed: u64, idx: usize, out: &mut String, st: &mut Stats) {
     let kind_of = |b: std::thread::Result<scnr::Result<scnr::Scanner>>| match b {
         Err(_) => "panic".to_string(),
         Ok(Ok(_)) => "build ok".to_string(),
-        Ok(Err(e)) => match *e.source {
-            scnr::ScnrErrorKind::RegexSyntaxError(..) => "build syntax".to_string(),
-            scnr::ScnrErrorKind::UnsupportedFeature(_) => "build unsupported".to_string(),
-            _ => "build othererror".to_string(),
-        },
+        // (the property asks for *an* error; which kind is reported is not compared)
+        Ok(Err(_)) => "build err".to_string(),
     };
     // the same configuration through the cached `build`
     out.push_str("bbuild\n");
@@ -3330,11 +3327,10 @@ fn case_c18(seed: u64, idx: usize, cache: &TableCache, out: &mut String, st: &mu
                 let _ = writeln!(out, "dottext {}{}", m, proto::cps(&text));
                 out.push_str("expect dottext done\n");
                 st.count("dot_files_parsed_by_the_verified_parser", 1);
-                let _ = writeln!(out, "dot {}", m);
+                // cross-check by the harness' own parser (the verdict is the verified parser's: when this
+                // one cannot read the file, nothing is compared here)
                 match dotparse::parse(&text) {
-                    Err(e) => {
-                        let _ = writeln!(out, "expect dot malformed: {}", e.replace('\n', " "));
-                    }
+                    Err(_) => st.count("dot_files_the_cross_check_parser_could_not_read", 1),
                     Ok(g) => {
                         let mut line = String::from("dot");
                         match dotparse::decode(&g, "") {
@@ -3370,7 +3366,11 @@ fn case_c18(seed: u64, idx: usize, cache: &TableCache, out: &mut String, st: &mu
                                 }
                             }
                         }
-                        let _ = writeln!(out, "expect {}", line);
+                        if line.starts_with("dot undecodable") {
+                            st.count("dot_files_the_cross_check_parser_could_not_read", 1);
+                        } else {
+                            let _ = writeln!(out, "dot {}\nexpect {}", m, line);
+                        }
                         st.count("dot_files_parsed", 1);
                         st.count("dot_clusters", g.clusters.len());
                     }
